@@ -405,8 +405,18 @@ impl Linter for LintGroup {
             };
 
             let chunk_chars = document.get_span_content(&chunk_span);
-            let config_hash = self.hasher_builder.hash_one(&self.config);
-            let key = (chunk_chars.into(), config_hash);
+
+            // The results depend on the configuration and on how the chunk was tokenized: the
+            // same characters yield different tokens under different parsers (Markdown emphasis
+            // inside a phrase, for one), so both go into the key next to the characters.
+            let mut hasher = self.hasher_builder.build_hasher();
+            self.config.hash(&mut hasher);
+            for token in chunk {
+                (token.span.start - chunk_span.start).hash(&mut hasher);
+                token.span.len().hash(&mut hasher);
+                token.kind.hash(&mut hasher);
+            }
+            let key = (chunk_chars.into(), hasher.finish());
 
             let mut chunk_results = if let Some(hit) = self.chunk_pattern_cache.get(&key) {
                 hit.clone()
